@@ -249,6 +249,12 @@ pub fn judge(which: &str, cfg: &Cfg, log: &[Rec]) -> Report {
                             any_queued = true;
                             hist_queued |= *req < PROBE_BASE;
                         }
+                        // a caller that cannot get a slot within max_wait must be rejected, not admitted later
+                        if let (Some(ms), "C07") = (cfg.max_wait_ms, which) {
+                            if r.t > fp + ms * 1000 {
+                                rep.violate("C07:admitted-after-max-wait", format!("r{req} arrived t={fp}us with max_wait={ms}ms but was admitted at t={}us instead of being rejected", r.t));
+                            }
+                        }
                     }
                     if which == "C07" {
                         if let Some(tc) = i.cancelled {
@@ -303,6 +309,11 @@ pub fn judge(which: &str, cfg: &Cfg, log: &[Rec]) -> Report {
                 if let Some(i) = info.get_mut(req) {
                     if i.enter.is_none() {
                         i.cancelled = Some(r.t);
+                        if let (Some(ms), Some(fp), "C07") = (cfg.max_wait_ms, i.first_poll, which) {
+                            if r.t > fp + ms * 1000 && i.resolved.is_none() {
+                                rep.violate("C07:waited-beyond-max-wait", format!("r{req} arrived t={fp}us with max_wait={ms}ms and was still waiting (neither admitted nor rejected) at t={}us", r.t));
+                            }
+                        }
                     }
                     if r.t < T_CANCEL {
                         fault_seen = true;
